@@ -132,6 +132,9 @@ func (e *Engine) mapLen(st *State, mt *types.Map, m *Term) *Term {
 	r := tb.Select(e.H(st, "MLen:"+typeKey(mt), SArrI), m)
 	e.assume(st, tb.Le(tb.Int(0), r))
 	e.assume(st, tb.Implies(tb.Eq(m, tb.Int(0)), tb.Eq(r, tb.Int(0))))
+	// a map of positive length has some key (witness function)
+	dom := tb.Select(e.H(st, e.mapDomClass(mt), SArr2B), m)
+	e.assume(st, tb.Implies(tb.Gt(r, tb.Int(0)), tb.Select(dom, tb.App("mapwit_"+typeKey(mt), SInt, dom))))
 	return r
 }
 
